@@ -195,7 +195,10 @@ fn registry_checks(seed: u64, seeds_per_entry: usize, only: usize, rep: &mut Rep
     let reg = registry();
     for (ei, e) in reg.iter().enumerate().filter(|(i, _)| *i == only) {
         let mut consumed_any = false;
-        let seeds: Vec<u64> = (0..seeds_per_entry).map(|k| mix(seed, mix(ei as u64, k as u64))).collect();
+        // in batches, so that the rendered results of at most 512 calls are alive at a time
+        let all_seeds: Vec<u64> = (0..seeds_per_entry).map(|k| mix(seed, mix(ei as u64, k as u64))).collect();
+        for (batch_no, seeds) in all_seeds.chunks(512).enumerate() {
+        let seeds: Vec<u64> = seeds.to_vec();
         let firsts: Vec<_> = seeds.iter().map(|s| run_entry(e, *s, mix(*s, 77))).collect();
         // the second runs happen on a different thread: thread-local state differs there
         let seconds: Vec<_> = std::thread::scope(|sc| {
@@ -225,12 +228,13 @@ fn registry_checks(seed: u64, seeds_per_entry: usize, only: usize, rep: &mut Rep
                     if fa.calls > 0 {
                         consumed_any = true;
                     }
-                    if rep.wants_sample() && k == 0 && ei % 7 == 0 {
+                    if rep.wants_sample() && k == 0 && batch_no == 0 && ei % 7 == 0 {
                         rep.sample(|| json!({"kind": "double run", "operation": e.0, "seed": s, "result": ra.chars().take(200).collect::<String>(), "generator_calls": fa.calls}));
                     }
                 }
                 (x, y) => rep.violation(format!("C16/{}/failed", e.0), || json!({"operation": e.0, "seed": s, "run_1": format!("{x:?}"), "run_2": format!("{y:?}")})),
             }
+        }
         }
         rep.count(&format!("registry:{}", if consumed_any { "draws-from-supplied-generator" } else { "deterministic-operation" }));
         if !consumed_any && !e.0.starts_with("selector Best") && !e.0.starts_with("selector Worst") {
